@@ -344,8 +344,13 @@ func H_C03_empty_text() {
 	}
 	inner := map[string]interface{}{"#text": ""}
 	want := map[string]interface{}{}
-	if vChoose(2) == 1 {
+	switch vChoose(4) {
+	case 1:
 		delete(inner, "#text") // attributes and children only
+	case 2: // a number or boolean as text beside attributes / children: rendered as its text
+		inner["#text"], want["#text"] = 7.5, "7.5"
+	case 3:
+		inner["#text"], want["#text"] = true, "true"
 	}
 	if vChoose(2) == 1 {
 		v := vNondetString(1, 1, "12")
@@ -371,8 +376,10 @@ func H_C03_empty_text() {
 	vAssert(r != nil && r["z"] == "1", "empty text: siblings are kept")
 	if len(want) == 0 {
 		vAssert(r["item"] == "", "empty text: an element with nothing but an empty text is an empty element")
+	} else if t, has := want["#text"]; has && len(want) == 1 {
+		vAssert(r["item"] == t, "empty text: a scalar text alone is the element's value, rendered as its text")
 	} else {
-		vAssert(vDeepEq(r["item"], want), "empty text: attributes and children are kept, the empty text adds nothing")
+		vAssert(vDeepEq(r["item"], want), "empty text: attributes, children and non-empty text are kept, an empty text adds nothing")
 	}
 	vCover("emptytext")
 }
